@@ -745,7 +745,7 @@ func (e *emitter) enumerate() {
 							return res
 						}
 						fv := rec.L(rec.S(ot), rec.S(rl), rec.L(uvs...), ov, cl.enc())
-						e.emit("rswu", i, 5, len(ul) == 0, map[string]any{"sorted": sorted}, fv, run("memory", e.b.mem), run("sqlite", e.b.sql))
+						e.emit("rswu", i, 5, false, map[string]any{"sorted": sorted}, fv, run("memory", e.b.mem), run("sqlite", e.b.sql))
 					}
 				}
 			}
